@@ -4,6 +4,7 @@
   modeling/mesh.go into Gen/Partition.lean).  Part 2: schedules (write-log model).  Part 3: block jobs.
 -/
 import PolyVerif.Lemmas.Par
+import PolyVerif.Lemmas.ParCanvas
 import PolyVerif.Gen.Partition
 
 set_option linter.unusedSimpArgs false
@@ -494,6 +495,129 @@ theorem block_workers_agree :
     Canvas.addFloat1Range.sampleArgs = ["x", "y", "z"] ∧ Canvas.calcFloat1Range.sampleArgs = ["x", "y", "z"] := by
   refine ⟨fun _ _ => ⟨rfl, rfl, rfl, rfl, rfl, rfl⟩, fun _ _ => ⟨rfl, rfl, rfl, rfl, rfl, rfl⟩,
     fun _ _ => ⟨rfl, rfl, rfl, rfl, rfl, rfl⟩, fun _ _ => ⟨rfl, rfl, rfl, rfl, rfl, rfl⟩, by decide, by decide, by decide⟩
+
+
+/-! ### One theorem: `AddFieldParallel` / `AddFieldParallel2` = `AddField`, cell for cell, on every schedule
+
+Model/ParCanvas.lean builds, from the regenerated expressions, the jobs of one `AddField*` call: one job per enumerated block,
+its events the read-modify-write updates `data[index(local x, local y, local z)] += sample(x, y, z)` of its triple loop
+(`g x y z : α → α` is that update — any function, so nothing about float addition is assumed). A cell is (block, index). -/
+
+theorem fieldOK_AddField : FieldOK addFieldFns := by
+  refine ⟨?_, ?_, ?_, ?_⟩
+  · constructor
+    · intro lo hi
+      exact nodup_map_of_inj (nodup_intRange _ _) (fun a _ a' _ e => by simp only [Canvas.chunkAtX] at e; omega)
+    · intro c lo hi x hx
+      simp only [AxisFns.range, mem_intRange] at hx
+      exact blocks_disjoint_AddField.1.inBlock lo hi c x hx.1 hx.2
+    · intro c x x' e
+      change x - c * 100 = x' - c * 100 at e; omega
+  · constructor
+    · intro lo hi
+      exact nodup_map_of_inj (nodup_intRange _ _) (fun a _ a' _ e => by simp only [Canvas.chunkAtY] at e; omega)
+    · intro c lo hi x hx
+      simp only [AxisFns.range, mem_intRange] at hx
+      exact blocks_disjoint_AddField.2.1.inBlock lo hi c x hx.1 hx.2
+    · intro c x x' e
+      change x - c * 100 = x' - c * 100 at e; omega
+  · constructor
+    · intro lo hi
+      exact nodup_map_of_inj (nodup_intRange _ _) (fun a _ a' _ e => by simp only [Canvas.chunkAtZ] at e; omega)
+    · intro c lo hi x hx
+      simp only [AxisFns.range, mem_intRange] at hx
+      exact blocks_disjoint_AddField.2.2.inBlock lo hi c x hx.1 hx.2
+    · intro c x x' e
+      change x - c * 100 = x' - c * 100 at e; omega
+  · intro x y z x' y' z' hx hy hz hx' hy' hz' e
+    exact (index_injective x y z x' y' z' hx hy hz hx' hy' hz').2 e
+
+theorem fieldOK_AddFieldParallel : FieldOK addFieldParallelFns := by
+  refine ⟨?_, ?_, ?_, ?_⟩
+  · constructor
+    · intro lo hi
+      exact nodup_map_of_inj (nodup_intRange _ _) (fun a _ a' _ e => by simp only [Canvas.chunkAtX] at e; omega)
+    · intro c lo hi x hx
+      simp only [AxisFns.range, mem_intRange] at hx
+      exact blocks_disjoint_AddFieldParallel.1.inBlock lo hi c x hx.1 hx.2
+    · intro c x x' e
+      change x - c * 100 = x' - c * 100 at e; omega
+  · constructor
+    · intro lo hi
+      exact nodup_map_of_inj (nodup_intRange _ _) (fun a _ a' _ e => by simp only [Canvas.chunkAtY] at e; omega)
+    · intro c lo hi x hx
+      simp only [AxisFns.range, mem_intRange] at hx
+      exact blocks_disjoint_AddFieldParallel.2.1.inBlock lo hi c x hx.1 hx.2
+    · intro c x x' e
+      change x - c * 100 = x' - c * 100 at e; omega
+  · constructor
+    · intro lo hi
+      exact nodup_map_of_inj (nodup_intRange _ _) (fun a _ a' _ e => by simp only [Canvas.chunkAtZ] at e; omega)
+    · intro c lo hi x hx
+      simp only [AxisFns.range, mem_intRange] at hx
+      exact blocks_disjoint_AddFieldParallel.2.2.inBlock lo hi c x hx.1 hx.2
+    · intro c x x' e
+      change x - c * 100 = x' - c * 100 at e; omega
+  · intro x y z x' y' z' hx hy hz hx' hy' hz' e
+    exact (index_injective x y z x' y' z' hx hy hz hx' hy' hz').2 e
+
+theorem fieldOK_AddFieldParallel2 : FieldOK addFieldParallel2Fns := by
+  refine ⟨?_, ?_, ?_, ?_⟩
+  · constructor
+    · intro lo hi
+      exact nodup_map_of_inj (nodup_intRange _ _) (fun a _ a' _ e => by simp only [Canvas.chunkAtX] at e; omega)
+    · intro c lo hi x hx
+      simp only [AxisFns.range, mem_intRange] at hx
+      exact blocks_disjoint_AddFieldParallel2.1.inBlock lo hi c x hx.1 hx.2
+    · intro c x x' e
+      change x - c * 100 = x' - c * 100 at e; omega
+  · constructor
+    · intro lo hi
+      exact nodup_map_of_inj (nodup_intRange _ _) (fun a _ a' _ e => by simp only [Canvas.chunkAtY] at e; omega)
+    · intro c lo hi x hx
+      simp only [AxisFns.range, mem_intRange] at hx
+      exact blocks_disjoint_AddFieldParallel2.2.1.inBlock lo hi c x hx.1 hx.2
+    · intro c x x' e
+      change x - c * 100 = x' - c * 100 at e; omega
+  · constructor
+    · intro lo hi
+      exact nodup_map_of_inj (nodup_intRange _ _) (fun a _ a' _ e => by simp only [Canvas.chunkAtZ] at e; omega)
+    · intro c lo hi x hx
+      simp only [AxisFns.range, mem_intRange] at hx
+      exact blocks_disjoint_AddFieldParallel2.2.2.inBlock lo hi c x hx.1 hx.2
+    · intro c x x' e
+      change x - c * 100 = x' - c * 100 at e; omega
+  · intro x y z x' y' z' hx hy hz hx' hy' hz' e
+    exact (index_injective x y z x' y' z' hx hy hz hx' hy' hz').2 e
+
+/-- all cells updated during one `AddField*` call are pairwise different: within a job (index injective on block-local
+    coordinates, which are valid by `blocks_disjoint_*`) and across jobs (different blocks, each enumerated once) -/
+theorem addfield_cells_distinct {α : Type} (d : Dom) (g : Int → Int → Int → α → α) :
+    ((((addFieldParallelFns.blocks d).map (addFieldParallelFns.jobLog d g)).flatten).map Prod.fst).Nodup ∧
+    ((((addFieldParallel2Fns.blocks d).map (addFieldParallel2Fns.jobLog d g)).flatten).map Prod.fst).Nodup ∧
+    ((((addFieldFns.blocks d).map (addFieldFns.jobLog d g)).flatten).map Prod.fst).Nodup :=
+  ⟨all_keys_nodup fieldOK_AddFieldParallel d g, all_keys_nodup fieldOK_AddFieldParallel2 d g, all_keys_nodup fieldOK_AddField d g⟩
+
+/-- **addFieldParallel_eq_addField** — for every padded domain `d` (any integer bounds, any number of blocks), every sample update
+    `g`, every initial canvas `m` and EVERY interleaving `s` of the block jobs of `AddFieldParallel` (a worker that takes several
+    jobs one after the other is such an interleaving): the canvas ends exactly as after the sequential `AddField`, which runs
+    the jobs of ITS regenerated expressions block after block.  Same for `AddFieldParallel2`, whose merge loop applies the
+    jobs in completion order. -/
+theorem addFieldParallel_eq_addField {α : Type} (d : Dom) (g : Int → Int → Int → α → α) (m : Cell → α)
+    (s : List (Cell × (α → α))) :
+    (Interleaving ((addFieldParallelFns.blocks d).map (addFieldParallelFns.jobLog d g)) s →
+      runUpd m s = runUpd m ((addFieldFns.blocks d).map (addFieldFns.jobLog d g)).flatten) ∧
+    (Interleaving ((addFieldParallel2Fns.blocks d).map (addFieldParallel2Fns.jobLog d g)) s →
+      runUpd m s = runUpd m ((addFieldFns.blocks d).map (addFieldFns.jobLog d g)).flatten) := by
+  have e1 : addFieldParallelFns = addFieldFns := rfl
+  have e2 : addFieldParallel2Fns = addFieldFns := rfl
+  constructor
+  · intro hs
+    rw [updates_irrelevant _ (addfield_cells_distinct d g).1 m s hs, e1]
+  · intro hs
+    rw [updates_irrelevant _ (addfield_cells_distinct d g).2.1 m s hs, e2]
+
+example : (addFieldParallelFns.blocks ⟨-3, 104, 0, 5, 95, 230⟩).length = 9 := by decide
 
 /-- **append_perm_tris** — `marchFloat1Parallel` appends the block meshes in completion order, `marchFloat1` in map-iteration
     order: whatever the order, the merged mesh has the same multiset of triangles-as-corner-positions (every block mesh
